@@ -33,6 +33,20 @@ def gal_op(o):
         return f"ODropReceived {o['i']}%nat"
     if k == "reset":
         return "OReset"
+    if k == "rxbegin":
+        return f"ORxBegin {vlib.gz(o['bytes'])}"
+    if k == "rxcopy":
+        return f"ORxCopy {o['k']}%nat {vlib.gz(o['i'])}"
+    if k == "rxend":
+        return f"ORxEnd {o['k']}%nat"
+    if k == "droprel":
+        return f"ODropRelease {o['i']}%nat"
+    if k == "dropclear":
+        return f"ODropClear {o['i']}%nat"
+    if k == "pollbegin":
+        return f"OPollBegin {o['i']}%nat"
+    if k == "pollend":
+        return f"OPollEnd {o['i']}%nat {o['was']} {'true' if o['expired'] else 'false'} {o['retries']}%nat"
     raise ValueError(k)
 
 
